@@ -1266,4 +1266,12 @@ theorem roundtrip_writtenReader (ver : Nat) (deflate : List UInt8 → List UInt8
       simp
 
 
+
+/-- well-formed item list for the writer: 16-bit type ids and ids, 32-bit data words, equal type
+ids adjacent and ascending (the order `Reader::check` demands of the type table) -/
+def ItemsWellFormed (items : List Item) : Prop :=
+  (∀ it ∈ items, it.typeId < 65536 ∧ it.id < 65536 ∧ ∀ w ∈ it.data, InI32 w)
+    ∧ items.Pairwise (fun a b => a.typeId ≤ b.typeId)
+
+
 end Tw.Datafile
